@@ -129,6 +129,37 @@ SPECS = {
             if matrixType == MatrixType.rigi:
                 nPg = 1"""),
     ],
+    "C08": [
+        ("rotate_uses_radians", R + "Geoms/_utils.py", "    theta *= np.pi / 180\n", "    theta *= np.pi / 200\n"),
+        ("normals_cross_flipped", GE, "            normals_e_pg = np.cross(dxdr_e_pg, dxds_e_pg)", "            normals_e_pg = np.cross(dxds_e_pg, dxdr_e_pg)"),
+        ("normals_2d_flipped", GE, "            normals_e_pg = np.cross((0, 0, 1), dxdr_e_pg)", "            normals_e_pg = np.cross(dxdr_e_pg, (0, 0, 1))"),
+        ("pointsInElem_2d_tol_sign", GE, "            test_n_i = cross_n_i @ n_i >= -tol", "            test_n_i = cross_n_i @ n_i >= tol"),
+        ("mapping_origin_dropped", GE, "                    xiP = xiOrigin + (xP_n - x0) @ np.asarray(invF_e_pg[e, 0])", "                    xiP = (xP_n - x0) @ np.asarray(invF_e_pg[e, 0])"),
+        ("translate_no_notify", MESH, """        newCoord = oldCoord + np.array([dx, dy, dz])
+        for groupElem in self.dict_groupElem.values():
+            groupElem.coord = newCoord
+        self._Notify("The mesh has been modified")""", """        newCoord = oldCoord + np.array([dx, dy, dz])
+        for groupElem in self.dict_groupElem.values():
+            groupElem.coord = newCoord"""),
+    ],
+    "C09": [
+        ("surfload_2d_no_thickness", SIMU, """            dofsValues, dofs, nodes = self.__Bc_lineLoad(
+                problemType, nodes, values, unknowns
+            )
+            # multiplied by thickness
+            dofsValues *= self.model.thickness""", """            dofsValues, dofs, nodes = self.__Bc_lineLoad(
+                problemType, nodes, values, unknowns
+            )
+            # multiplied by thickness
+            dofsValues *= 1.0"""),
+        ("integration_uses_rigi_rule", SIMU, """            # Get the coordinates of the Gauss points if you need to devaluate the function
+            matrixType = MatrixType.mass""", """            # Get the coordinates of the Gauss points if you need to devaluate the function
+            matrixType = MatrixType.rigi"""),
+        ("elements_not_exclusive", SIMU, "            elements = groupElem.Get_Elements_Nodes(nodes, exclusively=True)\n            if elements.shape[0] == 0:\n                continue\n            connect = groupElem.connect[elements]\n            Ne = elements.shape[0]\n            list_nodesUsed", "            elements = groupElem.Get_Elements_Nodes(nodes, exclusively=False)\n            if elements.shape[0] == 0:\n                continue\n            connect = groupElem.connect[elements]\n            Ne = elements.shape[0]\n            list_nodesUsed"),
+        ("point_load_not_split", SIMU, "            eval_n /= len(nodes)\n", "            eval_n /= 1\n"),
+        ("pressure_thickness_dropped", SIMU, "            magnitude *= self.model.thickness\n", "            magnitude *= 1.0\n"),
+        ("beam_hermitian_load_wrong_row", R + "Simulations/_beam.py", "                N_e_pg[:, :, row, :],", "                N_e_pg[:, :, min(row, 1), :],"),
+    ],
 }
 
 
